@@ -2,6 +2,8 @@
 #define COND_EQ_H
 
 #include "mp/common.h"
+#include <cmath>
+
 #include "mp/flat/redef/redef_base.h"
 #include "mp/flat/constr_std.h"
 
@@ -84,16 +86,24 @@ public:
                                          1.0 ) );
       auto bNt = GetMC().ComputeBoundsAndType(con.GetBody());
       double cmpEps = GetMC().ComparisonEps( bNt.get_result_type() );
+      double rhs_below = con.rhs() - cmpEps;
+      double rhs_above = con.rhs() + cmpEps;
+      if (var::INTEGER == bNt.get_result_type()) {
+        // Integer body: the nearest attainable values different from rhs,
+        // which need not be integer itself
+        rhs_below = std::ceil(con.rhs()) - 1.0;
+        rhs_above = std::floor(con.rhs()) + 1.0;
+      }
       {
         GetMC().AddConstraint(IndicatorConstraint< AlgCon<-1> >(
                                 newvars[0], 1,
                               { con.GetBody(),
-                                con.rhs() - cmpEps }));
+                                rhs_below }));
       }
       GetMC().AddConstraint(IndicatorConstraint< AlgCon<1> >(
                               newvars[1], 1,
                             { con.GetBody(),
-                              con.rhs() + cmpEps }));
+                              rhs_above }));
     } // else, skip
   }
 
